@@ -255,6 +255,9 @@ void parallel_sort_mwms_pu(PMWMSSortingData<RandomAccessIterator>* sd,
 
     barrier.wait();
 
+    // all threads have finished merging: destroy the local copies
+    for (DiffType i = 0; i < length_local; ++i)
+        sd->temporary[iam][i].~ValueType();
     operator delete(sd->temporary[iam]);
 }
 
